@@ -178,24 +178,6 @@ theorem table_wf :
   refine ⟨by decide +kernel, by decide +kernel, by decide +kernel, by decide +kernel, by decide +kernel,
     by decide +kernel, by decide +kernel, by decide +kernel, by decide +kernel⟩
 
-/-- the keyword rules of one type never share (position, keyword) -/
-def kwDistinct : List Rule → Bool
-  | [] => true
-  | r :: rs =>
-    (match r.pos with
-     | none => true
-     | some p => rs.all (fun r' => !(r'.pos == some p && (r'.params[p]?.map (fun q => lower q.name)) == (r.params[p]?.map (fun q => lower q.name)))))
-    && kwDistinct rs
-
-/-- a rule does not react to the given fields -/
-def noMatch (fields : List Str) (r : Rule) : Bool :=
-  match r.pos with
-  | none => true
-  | some p =>
-    match fields[p]?, r.params[p]? with
-    | some f, some prm => lower f != lower prm.name
-    | _, _ => true
-
 /-- generic selection lemma: the first rule whose keyword stands at its position is selected -/
 theorem select_spec (fields : List Str) (pre post : List Rule) (r : Rule) (p : Nat) (prm : Param) (f : Str)
     (hpos : r.pos = some p) (hprm : r.params[p]? = some prm) (hf : fields[p]? = some f)
@@ -577,12 +559,6 @@ theorem print_idempotent (g : Grammar) (c c' : Cpt)
   simp only [hname, hty, hnodes, hargs, hkp, hkw, hopts, hstr, fmtArgs_normArgs]
 
 /-! ### print → parse, argument level (generic in the rule) -/
-
-/-- a `None` in final position is only printable (by omission) if the parameter has no default -/
-def trailingNoneOK : List Param → List (Option Str) → Bool
-  | [p], [none] => p.default.isNone
-  | _ :: ps, _ :: v :: vs => trailingNoneOK ps (v :: vs)
-  | _, _ => true
 
 theorem okValue_zero (ds : List Char) (h0 : ds.contains '0' = false) : okValue ds ['0'] = true := by
   have h0' : '0' ∉ ds := by simpa using h0
